@@ -3457,6 +3457,15 @@ static Token *function(Token *tok, Type *basety, VarAttr *attr) {
     if (!fn->is_static && attr->is_static)
       error_tok(tok, "static declaration follows a non-static declaration");
     fn->is_definition = fn->is_definition || equal(tok, "{");
+    fn->is_inline = fn->is_inline || attr->is_inline;
+
+    // [https://www.sigbus.info/n1570#6.7.4p7] A function stays an
+    // inline definition (which we treat like a static function) only
+    // if all its declarations say "inline" without "extern".
+    if (fn->is_inline_definition && !(attr->is_inline && !attr->is_extern)) {
+      fn->is_inline_definition = false;
+      fn->is_static = false;
+    }
   } else {
     VarScope *sc = find_var(ty->name);
     if (sc && sc->var && !sc->var->is_local && !sc->var->is_function && scope->next == NULL)
@@ -3467,6 +3476,7 @@ static Token *function(Token *tok, Type *basety, VarAttr *attr) {
     fn->is_definition = equal(tok, "{");
     fn->is_static = attr->is_static || (attr->is_inline && !attr->is_extern);
     fn->is_inline = attr->is_inline;
+    fn->is_inline_definition = !attr->is_static && attr->is_inline && !attr->is_extern;
   }
 
   fn->is_root = !(fn->is_static && fn->is_inline);
